@@ -42,6 +42,7 @@ func runC08(p *Prog, r *Report) {
 	r.Rule("D3-per-root", "per-root state re-initialised; Run appends what the walk returned")
 	r.Rule("D5-balanced", "gitignore push/pop balanced over every directory")
 	c08Sorted(p, r)
+	c08LocationsBeforePackages(p, r, "D1-sorted")
 	c08Comparators(p, r)
 	c08NoPointerIdentity(p, r)
 	e := resolveEngine(p, r, "D3-per-root")
@@ -55,6 +56,8 @@ func runC08(p *Prog, r *Report) {
 	}, perRootErrorExits(e), "a scan root can be skipped without being walked (e.g. de-duplication by Path, which is empty for every virtual root): its packages and statuses are missing from the union")
 	mapOnlySetTrue(p, r, "D3-per-root", "walkContext", "foundInv", "extractor/filesystem", "the 'extractor found inventory' flag is overwritten per file instead of being sticky for the root: whether an extractor with one failing file is reported failed or partially succeeded depends on which of its files the walk reached last")
 	c08Balanced(p, r, e, "D5-balanced")
+	r.Rule("D6-skipdir-only-for-directories", "the walk callback returns SkipDir only for a directory the skip predicate selected (shared with C01)")
+	skipDirOnlyForSkippedDirs(p, r, e, "D6-skipdir-only-for-directories")
 }
 
 func c08Sorted(p *Prog, r *Report) {
